@@ -70,7 +70,12 @@ impl<'r> SurfGen<'r> {
                     format!("({f} = {}, {} = {})", self.pat(depth - 1), self.pick(&FIELDS), self.pat(depth - 1))
                 } else {
                     // pun, and the same spelled out
-                    if self.rng.chance(1, 2) { format!("(= {f})") } else { format!("({f} = {f})") }
+                    match self.rng.below(4) {
+                        | 0 => format!("(= {f})"),
+                        | 1 => format!("({f} = {f})"),
+                        | 2 => format!("(= {f} : {})", self.pick(&UPPER)),
+                        | _ => format!("({f} = ({f} : {}))", self.pick(&UPPER)),
+                    }
                 }
             }
             | 9 => {
@@ -99,7 +104,7 @@ impl<'r> SurfGen<'r> {
         }
         self.feat("exists_manifest");
         let mut binder = match self.rng.below(6) {
-            | 0 => format!("= {}", self.pick(&UPPER)),
+            | 0 => if self.rng.chance(1, 2) { format!("= {}", self.pick(&UPPER)) } else { format!("= {} : {}", self.pick(&UPPER), self.pick(&UPPER)) },
             | 1 => format!("({} : {})", self.var(), self.pick(&UPPER)),
             | 2 => format!("({} = {})", self.pick(&FIELDS), self.var()),
             | 3 => format!("(({}))", self.var()),
